@@ -456,7 +456,12 @@ fn judge(programs: &[&str], t: &Trace) -> Vec<(String, String)> {
                     "dead-or-foreign-pid"
                 };
                 out.push((
-                    format!("C25|no-live-flag-while-owner-holds|{kind}|by={who}:{by_label}|left={left}"),
+                    // a crash destroys nothing itself: the step at which the other process died does not matter
+                    if who == "crash" {
+                        format!("C25|no-live-flag-while-owner-holds|{kind}|by=crash-of-the-process-named-in-the-flag|left={left}")
+                    } else {
+                        format!("C25|no-live-flag-while-owner-holds|{kind}|by={who}:{by_label}|left={left}")
+                    },
                     format!(
                         "process {op} ({}) returned Ok from lock() at event {ls} and has not begun release, but after step `{step}` the lock directory holds no flag naming a live process (contents: [{dir}])",
                         programs[*op]
